@@ -190,25 +190,10 @@ theorem stdmodel_acf_note (M : FlModel) (hu : M.u = 1 / 2 ^ 53) (hid : M.Idem) (
     have := acf_abs_le ts k hn hQ hlt
     linarith
 
-/-- deprecated alias of `stdmodel_matmul_note` (the `f64_` prefix wrongly suggested a statement about IEEE binary64; kept only
-until the `REQUIRED_THEOREMS` wiring is updated) -/
-alias f64_matmul_note := stdmodel_matmul_note
 
-/-- deprecated alias of `stdmodel_logsumexp_note` (the `f64_` prefix wrongly suggested a statement about IEEE binary64; kept only
-until the `REQUIRED_THEOREMS` wiring is updated) -/
-alias f64_logsumexp_note := stdmodel_logsumexp_note
 
-/-- deprecated alias of `stdmodel_softmax_note` (the `f64_` prefix wrongly suggested a statement about IEEE binary64; kept only
-until the `REQUIRED_THEOREMS` wiring is updated) -/
-alias f64_softmax_note := stdmodel_softmax_note
 
-/-- deprecated alias of `stdmodel_logistic_note` (the `f64_` prefix wrongly suggested a statement about IEEE binary64; kept only
-until the `REQUIRED_THEOREMS` wiring is updated) -/
-alias f64_logistic_note := stdmodel_logistic_note
 
-/-- deprecated alias of `stdmodel_acf_note` (the `f64_` prefix wrongly suggested a statement about IEEE binary64; kept only
-until the `REQUIRED_THEOREMS` wiring is updated) -/
-alias f64_acf_note := stdmodel_acf_note
 
 /-! ### the Vector methods of the `Dot` trait -/
 
